@@ -292,6 +292,8 @@ func (b Bounds) Extras() []*Stmt {
 		{K: StSave, All: Asset("X"), Acc: Acc("a")},
 		{K: StSetTxMeta, Key: "k", Val: X(5)},
 		{K: StSetAccMeta, Acc: Acc("a"), Key: "k", Val: PortionLit("2/4")},
+		{K: StSave, Mon: Sub(X(1), X(7)), Acc: Acc("a")},
+		{K: StSave, Mon: Add(X(1), X(1)), Acc: Acc("a")},
 	}
 	if b.Wide {
 		out = append(out,
